@@ -123,6 +123,10 @@ pub(super) fn all_queries() -> Names {
             (q("nope.leaf.tld.", RecordType::A), "secure-nx"),
             (q("nope.tld.", RecordType::A), "secure-nx"),
             (q("deep.nope.leaf.tld.", RecordType::A), "secure-nx"),
+            // aliases across the secure / insecure border (the resolver behind the server chases them)
+            (q("ext.plain.tld.", RecordType::A), "insecure-alias"),
+            (q("extnx.plain.tld.", RecordType::A), "insecure-alias-nx"),
+            (q("out.leaf.tld.", RecordType::A), "secure-alias-out"),
         ],
     }
 }
@@ -210,12 +214,28 @@ pub(super) fn build_world(p: &Plan) -> (World, Vec<KeyRef>) {
         Record::from_rdata(n("txt.leaf.tld."), 300, RData::TXT(TXT::new(vec!["leaf".to_string()]))),
         Record::from_rdata(n("alias.leaf.tld."), 300, RData::CNAME(CNAME(n("www.leaf.tld.")))),
         a("*.w.leaf.tld.", 12),
+        // a signed alias that leaves the signed world
+        Record::from_rdata(n("out.leaf.tld."), 300, RData::CNAME(CNAME(n("www.plain.tld.")))),
     ];
     let leaf = ZoneSpec { origin: lo, records: leaf_recs, nx: nx(p, 2), keys: vec![leaf_key], sig_duration_s: dur };
 
     let mk_unsigned = |origin: &str, last: u8| {
         let o = n(origin);
-        ZoneSpec { origin: o.clone(), records: vec![soa(&o), ns(origin, &format!("ns.{origin}")), a(&format!("ns.{origin}"), last), a(&format!("www.{origin}"), last + 100)], nx: Nx::Nsec, keys: vec![], sig_duration_s: dur }
+        ZoneSpec {
+            origin: o.clone(),
+            records: vec![
+                soa(&o),
+                ns(origin, &format!("ns.{origin}")),
+                a(&format!("ns.{origin}"), last),
+                a(&format!("www.{origin}"), last + 100),
+                // unsigned aliases into the signed world: to data that exists, to a name that does not
+                Record::from_rdata(n(&format!("ext.{origin}")), 300, RData::CNAME(CNAME(n("www.leaf.tld.")))),
+                Record::from_rdata(n(&format!("extnx.{origin}")), 300, RData::CNAME(CNAME(n("nope.leaf.tld.")))),
+            ],
+            nx: Nx::Nsec,
+            keys: vec![],
+            sig_duration_s: dur,
+        }
     };
     let plain = mk_unsigned("plain.tld.", 5);
     let badalg = mk_unsigned("badalg.tld.", 7);
